@@ -8,9 +8,11 @@ pub mod c08;
 pub mod c11;
 pub mod c12;
 pub mod c14;
+pub mod c30;
 pub mod c31;
 pub mod c32;
 pub mod c33;
+pub mod c34;
 pub mod c36;
 
 pub fn registry() -> &'static [Check] {
@@ -23,9 +25,11 @@ pub fn registry() -> &'static [Check] {
         Check { meta: &c11::META, run: c11::run, shards: (16, 16) },
         Check { meta: &c12::META, run: c12::run, shards: (16, 16) },
         Check { meta: &c14::META, run: c14::run, shards: (16, 16) },
+        Check { meta: &c30::META, run: c30::run, shards: (16, 16) },
         Check { meta: &c31::META, run: c31::run, shards: (8, 16) },
         Check { meta: &c32::META, run: c32::run, shards: (16, 16) },
         Check { meta: &c33::META, run: c33::run, shards: (16, 16) },
+        Check { meta: &c34::META, run: c34::run, shards: (16, 16) },
         Check { meta: &c36::META, run: c36::run, shards: (8, 16) },
     ];
     R
